@@ -16,7 +16,7 @@ PID = 'C19'
 TIMEOUT = 180.0
 CALL_TIMEOUT = 15.0
 RULE = ('every (entry point, signal) pair; per pair: all accepted layouts (writable and read-only, called twice), all '
-        'rejected layouts, all length mismatches; plus every history of 3 read-only queries (16-query alphabet) on one cycle '
+        'rejected layouts, all length mismatches; plus every history of 3 (thorough: 4) read-only queries (16-query alphabet) on one cycle '
         'container, each answer compared with that of a fresh container; non-trivial = entry point has both accepted and rejected inputs')
 ASSUMPTIONS = ['the accepted / rejected layout sets are those of the property text: (n,), (n,1), (n,1,1) vs (n,2), (1,n), '
                '(n,2,3) for the single-signal sift routines; vector vs single column for transforms, envelope and cycle '
@@ -193,7 +193,7 @@ def entry_names():
 
 
 def bounds(tier):
-    return {'signals': 2 if tier == 'quick' else 3}
+    return {'signals': 2 if tier == 'quick' else 3, 'query_history_depth': 3 if tier == 'quick' else 4}
 
 
 def cases(tier, seed):
@@ -203,7 +203,7 @@ def cases(tier, seed):
     # one cycle container handed to a history of read-only queries: the answer to a query is that of a fresh container
     for si in range(bounds(tier)['signals']):
         for first in range(len(QUERY_NAMES)):
-            yield ('Cycles:queries', si, seed, first)
+            yield ('Cycles:queries', si, seed, first, 3 if tier == 'quick' else 4)
 
 
 QUERY_NAMES = ('stat:cycle', 'stat:augmented', 'stat:samples', 'align:cycle', 'align:augmented', 'ctrl:cycle', 'ctrl:augmented',
@@ -264,10 +264,10 @@ def check_queries(case):
     """All histories q1 q2 [q3] over the query alphabet that start with query `first`: every answer equals the answer
     the same query gets from a freshly built container (and the phase / signal arrays stay untouched)."""
     import emd
-    name, si, seed, first = case
+    name, si, seed, first = case[:4]
+    depth = case[4] if len(case) > 4 else 3
     x = signals.fb_signal(SIGNALS[si], seed)
     phase = phase_of(x)
-    depth = 3
     viols = []
     trans = 0
     fresh = {}
